@@ -521,3 +521,5 @@ pub fn encode_to_worker(msg: &ToWorkerMessage) -> Bytes {
 pub fn now() -> Instant {
     Instant::now()
 }
+
+pub use crate::internal::worker::resources::verif_hooks::{SimAllocator, SimRequest};
